@@ -252,7 +252,7 @@ func (e *shEnv) attach(k int) error {
 // lateAttachOracle: what host k was handed during its attach must be a replay
 // of earlier reports (in order, nothing invented) and must at least carry the
 // component's latest report or its current status.
-func (e *shEnv) lateAttachOracle(k int, replay []*componentstatus.Event, sentBefore []*componentstatus.Event, state0 State, c *vt.C) *vt.Finding {
+func (e *shEnv) lateAttachOracle(k int, replay []*componentstatus.Event, sentBefore []*componentstatus.Event, state0 State, c klass) *vt.Finding {
 	j := 0
 	for _, r := range replay {
 		for j < len(sentBefore) && !sameEvent(sentBefore[j], r) {
@@ -278,13 +278,11 @@ func (e *shEnv) lateAttachOracle(k int, replay []*componentstatus.Event, sentBef
 		return vt.Failf("shared/late-instance-not-informed", "host %d attached after %d reports [%s] but was handed [%s]: neither the latest report nor the current status (%s) of the component",
 			k, len(sentBefore), evStatuses(sentBefore), evStatuses(replay), stateName[state0])
 	}
-	if c != nil {
-		if len(replay) == len(sentBefore) {
-			c.Class("late-attach/replay-complete")
-		} else {
-			c.Class("late-attach/replay-truncated")
-			e.truncated = true
-		}
+	if len(replay) == len(sentBefore) {
+		c.Class("late-attach/replay-complete")
+	} else {
+		c.Class("late-attach/replay-truncated")
+		e.truncated = true
 	}
 	return nil
 }
@@ -300,7 +298,7 @@ func (e *shEnv) sentCopy() []*componentstatus.Event {
 // hold the same status (the component "delivers its status to every instance it
 // represents").  After a truncated replay the statuses may differ: that is
 // counted and noted, not judged (the replay is documented as bounded).
-func (e *shEnv) convergence(c *vt.C, attached int, when string) *vt.Finding {
+func (e *shEnv) convergence(c klass, attached int, when string) *vt.Finding {
 	if attached < 2 {
 		return nil
 	}
@@ -328,13 +326,40 @@ func (e *shEnv) convergence(c *vt.C, attached int, when string) *vt.Finding {
 
 var cShared = vt.New("C11", "sharedcomponent")
 
+// klass is a nil-safe view of a collector (reference runs record nothing).
+type klass struct{ c *vt.C }
+
+func (k klass) Class(labels ...string) {
+	if k.c != nil {
+		k.c.Class(labels...)
+	}
+}
+
+func (k klass) Note(format string, args ...any) {
+	if k.c != nil {
+		k.c.Note(format, args...)
+	}
+}
+
+// shOutcome is what a run of a SharedScript delivered (filled when the oracle held).
+type shOutcome struct {
+	Per          [][]componentstatus.Status // per instance: delivered statuses
+	Raw          [][]componentstatus.Status // per host: statuses handed to the host
+	InnerStarted bool                       // this run's component object was started
+	ShutdownDone bool
+}
+
 func runShared(s SharedScript) (nontrivial bool, key string, f *vt.Finding) {
+	return runSharedWith(s, sharedcomponent.NewMap[string, *shInner](), klass{cShared}, nil)
+}
+
+// runSharedWith runs s on map m (key "k").
+func runSharedWith(s SharedScript, m *sharedcomponent.Map[string, *shInner], c klass, out *shOutcome) (nontrivial bool, key string, f *vt.Finding) {
 	kb, _ := json.Marshal(s)
 	key = string(kb)
 	if !s.valid() {
 		return false, key, nil
 	}
-	c := cShared
 	e := &shEnv{s: s, r: &rig{}, exact: true}
 	cid := component.MustNewIDWithName("c11", "shared")
 	sigs := []pipeline.Signal{pipeline.SignalTraces, pipeline.SignalMetrics, pipeline.SignalLogs}
@@ -347,7 +372,6 @@ func runShared(s SharedScript) (nontrivial bool, key string, f *vt.Finding) {
 	e.states = make([]State, s.NHosts)
 	e.attachd = make([]bool, s.NHosts)
 	e.inner = &shInner{env: e}
-	m := sharedcomponent.NewMap[string, *shInner]()
 	var err error
 	e.comp, err = m.LoadOrStore("k", func() (*shInner, error) { return e.inner, nil })
 	if err != nil {
@@ -605,6 +629,17 @@ func runShared(s SharedScript) (nontrivial bool, key string, f *vt.Finding) {
 		classes = append(classes, "shutdown")
 	}
 	c.Class(classes...)
+	if out != nil {
+		out.Per = per
+		out.Raw = make([][]componentstatus.Status, s.NHosts)
+		for k := range out.Raw {
+			for _, ev := range e.rawSince(k, 0) {
+				out.Raw[k] = append(out.Raw[k], ev.Status())
+			}
+		}
+		out.InnerStarted = e.inner.host != nil
+		out.ShutdownDone = shutdownDone
+	}
 	nontrivial = next >= 2 && reportsAfterAll > 0 && acceptedSomewhere && rejAfterAcc
 	return nontrivial, key, nil
 }
@@ -612,7 +647,7 @@ func runShared(s SharedScript) (nontrivial bool, key string, f *vt.Finding) {
 // divergenceProbe is set while the curated observation script runs (TestShared).
 var divergenceProbe bool
 
-func noteDivergence(c *vt.C, s SharedScript, states []State) {
+func noteDivergence(c klass, s SharedScript, states []State) {
 	if !divergenceProbe {
 		return
 	}
